@@ -17,7 +17,7 @@ spec/TextIdx.tla (+ MC_TextIdx.tla, Trace_TextIdx.tla):
 harness/cmd/vtext replays every history on a real engine (english / italian analyser, terms bound
 at run time to words the analyser maps to distinct single tokens) and compares
 DB.FindIDsByTextSearch (set, BM25 scores within 1e-9, order) and VSearch / VSearchGraph
-(alpha 0, 1/2, 1, text-only, CONTAINS form, allow-list, small k) after every step.
+(alpha 0, 1/2, 1 and another interior weight, text-only, CONTAINS form, allow-list, every weight also with small k) after every step.
 A sample of the judged searches goes back to TLC (Trace_TextIdx.tla), which evaluates the TLA+
 order predicates themselves and must reach the harness's verdicts.
 """
@@ -111,12 +111,12 @@ def geometry(r):
 def profile(geom, lang, seed, add_via="VAdd", decor=False, light=False, m=8, traces=40):
     return {"lang": lang, "seed": seed, "m": m, "efc": 100, "add_via": add_via, "decor": decor, "docs": geom["docs"], "nt": NT,
             "pos": geom["pos"], "qvecs": geom["qvecs"], "d2": geom["d2"], "out": seed % len(geom["docs"]), "light": light,
-            "max_div": 3, "traces": traces}
+            "max_div": 3, "traces": traces, "strict_formula": os.environ.get("C09_STRICT_FORMULA", "1") == "1"}
 
 
 TOTALS = ["behaviours", "steps", "checked_steps", "text_queries", "text_nontrivial", "scores", "scores_multi", "fusion_searches",
           "alpha0", "alpha1", "alpha_half", "fused_scores", "text_only", "contains_form", "filtered", "small_k", "ties",
-          "alpha_half_small_k_measured", "alpha_half_small_k_differs_from_formula",
+          "alpha_interior_small_k", "alpha_half_small_k_measured", "alpha_half_small_k_returned_without_vector_term", "alpha_half_small_k_differs_from_formula",
           "after_overwrite_or_delete", "div_total"]
 
 
@@ -309,7 +309,7 @@ def run(tier):
     chk.cov["families"] = families
     chk.cov["searches_judged_by_tlc"] = ntr
     chk.cov["known_finding_divergences"] = dict(known_hits)
-    for key, least in (("behaviours", 100), ("text_nontrivial", 1000), ("scores_multi", 100), ("alpha_half", 1000), ("text_only", 1000),
+    for key, least in (("behaviours", 100), ("text_nontrivial", 1000), ("scores_multi", 100), ("alpha_half", 1000), ("alpha_interior_small_k", 1000), ("text_only", 1000),
                        ("filtered", 100), ("small_k", 100), ("contains_form", 100), ("after_overwrite_or_delete", 100), ("ties", 10)):
         if totals.get(key, 0) < least:
             chk.infra.append("vacuous coverage: %s = %s" % (key, totals.get(key, 0)))
@@ -319,7 +319,7 @@ def run(tier):
             for f in families)
         + ". After EVERY step of every history: FindIDsByTextSearch for all 15 non-empty subsets of the 4 terms (result set = Candidates, each score = "
           "BM25 from the specification's integers within 1e-9 relative, non-increasing order); VSearch/VSearchGraph with explicit text query and with the "
-          "CONTAINS(content,'..') filter form, alpha in {0, 1/2, 1} and text-only (nil / all-zero vector), k in {|docs|+2, 1, 2}, with and without the "
+          "CONTAINS(content,'..') filter form, alpha in {0, 1/2, 1, one of 0.25/0.4/0.75} and text-only (nil / all-zero vector), each with k in {|docs|+2, 1 or 2}, with and without the "
           "allow-list filter g<2, query vector rotating over 3 lattice vectors (exhaustive families: a rotating third of the 15 queries per step for the fusion "
           "battery; random walks: all 15). State-cover run: invariants over every reachable (corpus, index, snapshot, log) "
           "state with internal id counter <= MaxCtr and journal <= MaxLog, histories of any length.")
@@ -333,8 +333,13 @@ def run(tier):
         "vector similarity of the fusion is 1/(1+d), d = squared Euclidean distance (normalizeVectorScores); the vector side is kept in the exact regime: "
         "3 documents on an integer lattice with pairwise distinct distances to every query vector (checked by TLC), at most 2*M nodes ever in the index "
         "(M=8, M=16 for walks), float32 and, after VCompress, float16 (lattice integers are exact in both)",
-        "alpha = 1/2 is compared with the formula only when k >= number of live documents (the engine fuses the top-k of each side: with a smaller k a document "
-        "outside the vector top-k contributes no vector term); with small k only the order constraints for alpha in {0,1} and text-only are judged",
+        "0 < alpha < 1 (1/2 and one of 0.25, 0.4, 0.75) is judged for EVERY k by the late-fusion rule that searchWithFusion implements (FusionPool / HybridOK "
+        "of TextIdx.tla): pool = the k nearest allowed documents + EVERY allowed candidate of the text query; a pool document scores alpha/(1+d) only if it is "
+        "among the k nearest, plus (1-alpha)*bm25/max with its OWN BM25 (max over all allowed candidates) if it is a candidate; the k best of the pool are "
+        "returned, each reported score must be exactly that, in non-increasing order. For k >= live documents this IS the documented formula "
+        "alpha*VectorScore + (1-alpha)*BM25Score on every document. For k < live documents it deviates from that formula in one respect only: a candidate outside "
+        "the k nearest carries no vector term (and may therefore lose its place); how often the returned list then differs from the formula's top-k is measured "
+        "(alpha_half_small_k_differs_from_formula) and is a divergence (known finding KF-C09-2) unless C09_STRICT_FORMULA=0",
         "when no document has any posting the engine has no text field to search and falls back to a plain vector search (scores not scaled by alpha): accepted "
         "for hybrid queries (same ranking); for a text-only query the specification requires the empty result",
         "3 documents, 4 terms, term frequency <= 2, one text field (\"content\"); texts are space-separated words (optionally decorated with dropped stop words, "
